@@ -72,6 +72,35 @@ Proof.
   unfold h2_preface_done. repeat constructor; cbn; discriminate.
 Qed.
 
+(* the model even satisfies the strict form of the monitor: after the signal no driver is spawned
+   at all (mon_C07 itself lets the connection that was in State::Making when the signal resolved
+   get its driver: it had been accepted before) *)
+Theorem c07_monitor_strict : forall g evs,
+  h2_preface_done g evs -> mon_from chk07_strict ms0 (trace (run g evs)) = true.
+Proof. exact model_mon_C07_strict. Qed.
+Print Assumptions c07_monitor_strict.
+
+(* the signal resolves INSIDE the accept loop: three connects are queued, the make-service resolves the
+   signal while it admits the first; the signal is polled at the top of every iteration, so the other
+   two are never accepted: they are refused, connection 0 is told and (idle) closes *)
+Example c07_inloop_example :
+  let g := mkCfg true PH1 in
+  let evs := [EConnect KH1; EConnect KH1; EConnect KH1; EMakeSignal 0; ESettle] in
+  h2_preface_done g evs
+  /\ trace (run g evs)
+     = [OConnect 0; OConnect 1; OConnect 2; OAccept 0; OSpawn 0; OSignal; OServer true;
+        ORefused 1; ORefused 2; OTold 0; ODone 0; OQuiet]
+  (* the implementation logs the signal between OAccept 0 and OSpawn 0: accepted *)
+  /\ mon_C07 [OConnect 0; OConnect 1; OConnect 2; OAccept 0; OSignal; OSpawn 0; OServer true;
+              ORefused 1; ORefused 2; OTold 0; ODone 0; OQuiet] = true
+  (* a server that polls the signal only once per wake-up goes on accepting: rejected *)
+  /\ mon_C07 [OConnect 0; OConnect 1; OConnect 2; OAccept 0; OSignal; OSpawn 0; OAccept 1; OSpawn 1;
+              OAccept 2; OSpawn 2; OServer true; OTold 0; ODone 0; OTold 1; ODone 1; OTold 2; ODone 2; OQuiet] = false.
+Proof.
+  cbv zeta. split; [| split; [| split]]; try (vm_compute; reflexivity).
+  unfold h2_preface_done. repeat constructor; cbn; discriminate.
+Qed.
+
 (* the hypothesis is needed: D18 in the model *)
 Example c07_d15 :
   mon_C07 (trace (run (mkCfg true PH2) [EConnect KRaw; ESettle; ESignal; ESettle])) = false.
